@@ -151,9 +151,15 @@ def build(v):
     if t == 'npfloat':
         return np.float64(float.fromhex(v[1]))
     if t == 'nparr':
+        if len(v[1]) >= 2 and sum(v[1]) % 2:
+            # the same contents as a reversed (non C-contiguous) view: orjson hands those to the fallback serializer
+            return np.array(v[1][::-1], dtype=np.int64)[::-1]
         return np.array(v[1], dtype=np.int64)
     if t == 'nparr2':
-        return np.array(v[1], dtype=np.int64).reshape(len(v[1]), 2)
+        a = np.array(v[1], dtype=np.int64).reshape(len(v[1]), 2)
+        if len(v[1]) >= 2 and sum(map(sum, v[1])) % 2:
+            return np.asfortranarray(a)          # Fortran order: not C-contiguous either
+        return a
     if t == 'qty':
         mag = build(v[1])
         return mag * units(v[2])
